@@ -884,8 +884,7 @@ impl<T: Send> AsyncReceiver<T> {
   /// This method returns a future that will complete when a value is received,
   /// or when the channel becomes disconnected.
   pub fn recv(&self) -> RecvFuture<'_, T> {
-    let fut = async_impl::RecvFuture::new(self);
-    if self.closed.load(Ordering::Relaxed) { fut.rejected() } else { fut }
+    async_impl::RecvFuture::new(self)
   }
 
   /// Attempts to receive a value from the channel without blocking (or awaiting).
@@ -899,8 +898,7 @@ impl<T: Send> AsyncReceiver<T> {
   /// Receives up to `max` items asynchronously. Resolves with between 1 and
   /// `max` items (FIFO order) once anything is available. Cancel-safe.
   pub fn recv_batch(&self, max: usize) -> RecvBatchFuture<'_, T> {
-    let fut = async_impl::RecvBatchFuture::new(self, max);
-    if self.closed.load(Ordering::Relaxed) { fut.rejected() } else { fut }
+    async_impl::RecvBatchFuture::new(self, max)
   }
 
   /// Receives up to `max` items asynchronously, appending them to the end of
@@ -910,8 +908,7 @@ impl<T: Send> AsyncReceiver<T> {
     out: &'a mut Vec<T>,
     max: usize,
   ) -> RecvBatchMutFuture<'a, T> {
-    let fut = async_impl::RecvBatchMutFuture::new(self, out, max);
-    if self.closed.load(Ordering::Relaxed) { fut.rejected() } else { fut }
+    async_impl::RecvBatchMutFuture::new(self, out, max)
   }
 
   /// Attempts to receive up to `max` items without blocking. Same semantics
